@@ -56,9 +56,16 @@ def classify(run, v):
 def several_unhandled_failures(run, arn):
     """C06's listed finding seen from the history: the execution was ended by a failure, and ended AGAIN by another failure (two FAILED
     notifications), in a machine whose fan-out has several branches/iterations that can fail independently."""
-    terms = [n["body"]["detail"] for n in run.world.notifications if n["body"]["detail"]["executionArn"] == arn and n["body"]["detail"]["status"] != "RUNNING"]
+    notes = [n for n in run.world.notifications if n["body"]["detail"]["executionArn"] == arn and n["body"]["detail"]["status"] != "RUNNING"]
+    terms = [n["body"]["detail"] for n in notes]
     if len(terms) < 2 or any(t["status"] != "FAILED" for t in terms[:2]):
         return False
+    # the second end must be another branch's own failure: prompt, and not the TTL back-stop's States.Timeout
+    if terms[1].get("error") == "States.Timeout" or notes[1]["t"] - notes[0]["t"] >= run.world.execution_ttl - 1:
+        return False
+    failing = (getattr(run, "meta", {}) or {}).get("failing")
+    if failing is not None and len(failing) < 2:
+        return False            # the family knows how many branches fail
 
     def fanouts(node):
         if isinstance(node, dict):
@@ -264,9 +271,20 @@ def run(ctx):
         if not ctx.mine(k):
             continue
         rng = ctx.rng("fam", k)
-        fam = ["sequential", "fanout-none", "fanout-one", "retried-fanout"][k % 4]
+        fam = ["sequential", "fanout-none", "fanout-one", "retried-fanout", "caught-sibling"][k % 5]
         express = k % 7 == 0
-        scn, meta = F.scenario(rng, fam, n_exec=rng.randint(1, 3), typ="EXPRESS" if express else "STANDARD")
+        if fam == "caught-sibling":
+            # an unhandled failure while a sibling, whose own error was caught inside its branch, is busy in its fallback path
+            from lsfverif.checks import c06
+            kind = rng.choice(["Parallel", "Map"])
+            n = rng.randint(2, 3)
+            scn, meta = c06.make(rng, kind, n, {rng.randrange(n)}, "none", sib_kind="caught", fail_delay=rng.choice([1, 2]))
+            meta = dict(meta, family="caught-sibling")
+            if express:
+                scn["machines"]["m"]["type"] = "EXPRESS"
+            ctx.count("caught_sibling_scenarios")
+        else:
+            scn, meta = F.scenario(rng, fam, n_exec=rng.randint(1, 3), typ="EXPRESS" if express else "STANDARD")
         if k % 5 == 1:
             scn["machines"]["m"]["logging"] = {"level": rng.choice(["ALL", "ERROR", "FATAL"]), "includeExecutionData": rng.random() < 0.5,
                                                "destinations": [{"cloudWatchLogsLogGroup": {"logGroupArn": "arn:aws:logs:local:0123456789:log-group:x"}}]}
